@@ -397,20 +397,28 @@ macro_rules! impl_tryfrom_integer {
                                 const LOWER: $intermediate = <$from>::MIN as $intermediate;
 
                                 // <f32|f64>::round() doesn't exist in no_std...
+                                // Adding 0.5 is not exact (0.49999999999999994 + 0.5 == 1.0), so
+                                // truncate and look at the remainder instead, which is exact.
                                 let rounded = if value >= INTEGRAL || value <= -INTEGRAL {
                                     value
-                                } else if value.is_sign_positive() {
-                                    value + 0.5
                                 } else {
-                                    value - 0.5
+                                    let truncated = (value as i64) as $intermediate;
+                                    let remainder = value - truncated;
+                                    if remainder >= 0.5 {
+                                        truncated + 1.0
+                                    } else if remainder <= -0.5 {
+                                        truncated - 1.0
+                                    } else {
+                                        truncated
+                                    }
                                 };
 
-                                if rounded.is_nan() || rounded >= UPPER {
+                                if value.is_nan() || rounded >= UPPER {
                                     Err(lexical_core::Error::Overflow(0).into())
-                                } else if rounded - LOWER <= -1.0 {
+                                } else if rounded < LOWER {
                                     Err(lexical_core::Error::Underflow(0).into())
                                 } else {
-                                    // Truncates towards zero, in range as checked above
+                                    // An integer in range as checked above
                                     Ok(rounded as $from)
                                 }
                             } else {
